@@ -202,6 +202,19 @@ func checkC01(c *Ctx) {
 				bad = append(bad, "the hash is not constructed from the algorithm parameter")
 			case dg.why != "":
 				bad = append(bad, "the hash is "+dg.why)
+			case len(dg.copies) == 0 && len(dg.inputs) > 0:
+				// fed by explicit Write calls: decided only if what is written is read from the hash content
+				fromContent := true
+				for _, in := range dg.inputs {
+					if !ir.HasField(dh.sliceDeep(in.v, in.fr), acPkg+".PECOFFBinary.hashContent") {
+						fromContent = false
+					}
+				}
+				if fromContent {
+					c.R.Infof("J4.hash", name(h), "digest-feed", c.Pos(h.Pos()), "not decided for this shape: the hash is fed by explicit Write calls with data read from the hash content (completeness of the copy loop is not evaluated)")
+				} else {
+					bad = append(bad, "the hash is fed with data that is not read from the image's hashContent")
+				}
 			case len(dg.inputs) != 0 || len(dg.copies) != 1:
 				bad = append(bad, "the hash is not fed by exactly one io.Copy")
 			default:
@@ -304,6 +317,11 @@ func (c *Ctx) headerRanges(dv *deepView, fn *ssa.Function, parts []listItem, arm
 					if lo, isK := ir.ConstInt(sl.Low); isK && lo == 0x3c {
 						okL = true
 					}
+				}
+			}
+			if !okL {
+				if _, off, w, isLE := leBytesAt(lfaVal); isLE {
+					okL = off == 0x3c && w == 4
 				}
 			}
 			if !okL {
@@ -641,7 +659,7 @@ func (c *Ctx) tailData(dv *deepView, fn *ssa.Function, parts []listItem, arms []
 			if dv.objectOf(cc.Call.Args[0], di.fr).same(rest) {
 				padWrite, padFr = cc, di.fr
 			}
-		case "io.Copy":
+		case "io.Copy", "bytes.Buffer.ReadFrom":
 			if dv.objectOf(cc.Call.Args[0], di.fr).same(rest) {
 				copyCall, copyFr = cc, di.fr
 			}
@@ -649,7 +667,7 @@ func (c *Ctx) tailData(dv *deepView, fn *ssa.Function, parts []listItem, arms []
 	}
 	// (a) filled from sum-of-bytes-hashed to the end of the file
 	if copyCall == nil {
-		bad = append(bad, "the buffer is not filled by io.Copy from the image")
+		bad = append(bad, "the buffer is not filled by io.Copy / ReadFrom from the image")
 	} else if sr, ok := dv.sectionRangeOf(copyCall.Call.Args[1], copyFr, nil); !ok {
 		bad = append(bad, "the trailing data is not read through a section reader over the image")
 	} else {
@@ -687,14 +705,8 @@ func (c *Ctx) tailData(dv *deepView, fn *ssa.Function, parts []listItem, arms []
 					if ph.Block().Preds[j].Index < ph.Block().Index {
 						entry = dv.affine(e, pfr, sel, 0)
 						nEntry++
-					} else if bo, ok := e.(*ssa.BinOp); ok && bo.Op == token.ADD {
-						x, y := bo.X, bo.Y
-						if y == ssa.Value(ph) {
-							x, y = y, x
-						}
-						if x == ssa.Value(ph) && ir.FieldID(ir.StripConv(y)) == "debug/pe.SectionHeader.Size" {
-							isSum = true
-						}
+					} else if accumulates(e, ph, 0) {
+						isSum = true
 					}
 				}
 				if isSum && nEntry == 1 {
@@ -777,4 +789,109 @@ func (d *deepView) objectOfAny(call *ssa.Call, obj dval) bool {
 		}
 	}
 	return false
+}
+
+// accumulates: v is the loop-carried value ph after one iteration of a loop that
+// adds the raw size of a section to it on some or all paths (ph itself, ph +
+// Size, or a merge of such values), with at least one adding path.
+func accumulates(v ssa.Value, ph *ssa.Phi, depth int) bool {
+	adds := false
+	var ok func(v ssa.Value, depth int) bool
+	ok = func(v ssa.Value, depth int) bool {
+		if depth > 6 {
+			return false
+		}
+		if v == ssa.Value(ph) {
+			return true
+		}
+		switch x := v.(type) {
+		case *ssa.BinOp:
+			if x.Op != token.ADD {
+				return false
+			}
+			a, b := x.X, x.Y
+			if ir.FieldID(ir.StripConv(a)) == "debug/pe.SectionHeader.Size" {
+				a, b = b, a
+			}
+			if ir.FieldID(ir.StripConv(b)) == "debug/pe.SectionHeader.Size" && ok(a, depth+1) {
+				adds = true
+				return true
+			}
+		case *ssa.Phi:
+			for _, e := range x.Edges {
+				if e == ssa.Value(x) {
+					continue
+				}
+				if !ok(e, depth+1) {
+					return false
+				}
+			}
+			return true
+		}
+		return false
+	}
+	return ok(v, depth) && adds
+}
+
+// leBytesAt recognises a little-endian integer assembled by hand from
+// consecutive bytes of one buffer: b[k] | b[k+1]<<8 | ... ; returns the buffer,
+// the offset of the lowest byte and the width.
+func leBytesAt(v ssa.Value) (buf ssa.Value, off int64, width int, ok bool) {
+	type part struct {
+		buf   ssa.Value
+		idx   int64
+		shift int64
+	}
+	var parts []part
+	var walk func(v ssa.Value, shift int64) bool
+	walk = func(v ssa.Value, shift int64) bool {
+		v = ir.StripConv(v)
+		switch x := v.(type) {
+		case *ssa.BinOp:
+			switch x.Op {
+			case token.OR, token.ADD, token.XOR:
+				return walk(x.X, shift) && walk(x.Y, shift)
+			case token.SHL:
+				k, isK := ir.ConstInt(x.Y)
+				if !isK {
+					return false
+				}
+				return walk(x.X, shift+k)
+			}
+		case *ssa.UnOp:
+			if x.Op == token.MUL {
+				if ia, isIA := x.X.(*ssa.IndexAddr); isIA {
+					if k, isK := ir.ConstInt(ia.Index); isK {
+						parts = append(parts, part{ia.X, k, shift})
+						return true
+					}
+				}
+			}
+		}
+		return false
+	}
+	if !walk(v, 0) || len(parts) == 0 {
+		return nil, 0, 0, false
+	}
+	base := parts[0].buf
+	lo := int64(-1)
+	for _, p := range parts {
+		if p.buf != base || p.shift%8 != 0 {
+			return nil, 0, 0, false
+		}
+		if p.shift == 0 {
+			lo = p.idx
+		}
+	}
+	if lo < 0 {
+		return nil, 0, 0, false
+	}
+	seen := map[int64]bool{}
+	for _, p := range parts {
+		if p.idx-lo != p.shift/8 || seen[p.idx] {
+			return nil, 0, 0, false
+		}
+		seen[p.idx] = true
+	}
+	return base, lo, len(parts), true
 }
